@@ -1,8 +1,8 @@
 import json
 """Per-property plug-ins: how cases are generated, which extra implementation runs a case
 needs, what makes a case non-trivial, which outcome disagreements the property owns."""
-import copy, json, re
-from . import gen, tree
+import copy, json, re, collections
+from . import gen, tree, image
 from .gen import Profile, Rng
 
 
@@ -117,6 +117,16 @@ def default_cases(pid):
                                  {"name": "b1", "vram_class": "B", "sections_subgroups": {".rodata": [".rdata"]},
                                   "files": [{"path": "b1.o"}, {"kind": "pad", "pad_amount": 64, "section": ".rdata"},
                                             {"kind": "linker_offset", "linker_offset_name": "b_rdata", "section": ".rdata"}]}]}),
+        ("normal", {"settings": {"sections_subgroups": {".rodata": [".rdata"], ".rdata": [".lit4"]}, "wildcard_sections": True},
+                    "segments": [{"name": "boot", "fixed_vram": 0x80000400,
+                                  "files": [{"kind": "group", "dir": "g", "files": [{"path": "a.o"},
+                                                                                    {"kind": "linker_offset", "linker_offset_name": "mid", "section": ".rdata"},
+                                                                                    {"kind": "pad", "pad_amount": 32, "section": ".lit4"},
+                                                                                    {"path": "b.o"}]},
+                                            {"path": "c.o", "section_order": {".rdata": ".data", ".bss": ".data"}},
+                                            {"kind": "pad", "pad_amount": 16, "section": ".rdata"}, {"path": "d.o"}]},
+                                 {"name": "ovl", "wildcard_sections": False, "alloc_sections": [".text", ".ovl_data"], "noload_sections": [],
+                                  "files": [{"path": "o1.o"}, {"path": "lib/libo.a", "kind": "archive", "subfile": "m.o", "keep_sections": [".text"]}]}]}),
     ]
     for mode, doc in combos:
         out.append({"id": "combo%d" % k, "seed": 31 + k, "stream": "valid", "opts": [["version", "us"]], "mode": mode, "version_comment": False,
@@ -331,6 +341,17 @@ def truth_table_lattice(full):
                 cases.append({"id": "tt%d" % idx, "stream": "lattice:truth-table", "doc": lattice_doc(kind, cond),
                               "opts": om, "mode": "partial" if (kind in (0, 1) and idx % 3 == 0) else "normal",
                               "version_comment": False})
+    # lists that repeat a pair (more pairs than there are options), alone in one field, on every record kind
+    repeated = [[["k1", "a"], ["k1", "a"]], [["k1", "a"], ["k1", "a"], ["k1", "a"]], [["k1", "a"], ["k2", "b"], ["k1", "a"]],
+                [["k2", "b"], ["k2", "b"], ["k1", "a"], ["k1", "a"]]]
+    for ck in COND_KEYS:
+        for rep in repeated:
+            for kind in range(6):
+                for om in optmaps:
+                    idx += 1
+                    cases.append({"id": "tr%d" % idx, "stream": "lattice:repeated-pairs", "doc": lattice_doc(kind, {ck: rep}),
+                                  "opts": om, "mode": "partial" if (kind in (0, 1) and idx % 3 == 0) else "normal",
+                                  "version_comment": False})
     return cases
 
 
@@ -413,6 +434,36 @@ class C13(Property):
 
     def profile(self, r):
         return Profile(header=1.0, p_offset=0.3, p_classes=0.5, p_toplevel=0.5, p_makerom=0.5, p_settings_field=0.4, p_gp=0.4)
+
+    def tweak(self, r, c):
+        # the header is also written when there is no dependency file to write
+        st = c["doc"].get("settings")
+        if isinstance(st, dict) and r.chance(0.3):
+            st.pop("d_path", None)
+            st.pop("target_path", None)
+
+    def evaluate(self, w, c):
+        impl, v = w.eval(c, [self.pid])
+        res = self.judge(c, impl, v, w)
+        if res["status"] != "ok" or impl.get("outcome") != "ok" or not fs_safe(c) or impl.get("header") is None:
+            return res
+        # the header file `save_other_files` writes, in both modes: present, and the text of the in-memory export
+        c2 = dict(c, out="out/script.ld")
+        fimpl, fv = eval_files(w, c2)
+        res["files_checked"] = True
+        if fimpl.get("outcome") in ("panic", "abort", "timeout"):
+            res.update(status="violation", why="file export %s" % fimpl.get("outcome"))
+        elif not fv.get("outcome_agree"):
+            res.update(status="skip", why="file export outcome disagreement (not owned)")
+        elif fimpl.get("outcome") == "ok":
+            hp = [p for p in fv.get("model_paths", []) if not p.endswith(".d") and not p.endswith(".ld")]
+            files = fimpl.get("files", {})
+            for p in hp:
+                if p not in files:
+                    res.update(status="violation", why="the symbols header %s is not written (files: %s)" % (p, sorted(files)))
+                elif files[p] != impl["header"]:
+                    res.update(status="violation", why="the symbols header file %s is not the header of the generated symbols" % p)
+        return res
 
     def nontrivial(self, c):
         d = c["doc"]
@@ -1192,7 +1243,7 @@ def link_syntax_check(c, impl):
     """hands the implementation's script(s) to GNU ld and lld with all referenced files present (empty objects);
     returns the list of syntax diagnostics, [] if none, None if the case is not linkable (unsafe names)"""
     from . import ldlab
-    scripts = [("main", impl["script"])] + [(n, s) for n, s in impl.get("partials", [])]
+    scripts = [(image.MAIN, impl["script"])] + [(n, s) for n, s in impl.get("partials", [])]
     lab = ldlab.Lab("c19")
     try:
         bad = []
@@ -1213,7 +1264,7 @@ def link_syntax_check(c, impl):
                 else:
                     lab.assemble(p, "")
                 objs.append(p)
-            rel = name != "main"
+            rel = name != image.MAIN
             rc, out = lab.link(script, inputs=objs, relocatable=rel, out=(name + ".o" if rel else "out.elf"))
             bad += ["ld(%s): %s" % (name, x) for x in ldlab.syntax_diagnostics(out)]
             if not rel:
@@ -1388,7 +1439,7 @@ def link_and_check(spec, w, c, impl):
     info = w.d.ask({"op": "docinfo", "case": {"id": c["id"], "doc": tree.to_proto(c["doc"]), "opts": c["opts"]}})
     if not info or "segments" not in info:
         return {"linked": "no-docinfo"}
-    scripts = [("main", impl["script"])] + [(n, t) for n, t in impl.get("partials", [])]
+    scripts = [(image.MAIN, impl["script"])] + [(n, t) for n, t in impl.get("partials", [])]
     rng = Rng(c.get("seed", 1) ^ 0x5EED)
     L = image.build_and_link("p%s" % spec.pid, scripts, info, rng)
     if isinstance(L, str):
@@ -1502,6 +1553,22 @@ class C05(ImageProperty):
             if not info["single"]:
                 want += [s["rom_start"], s["rom_end"], s["rom_size"], s["vram"], s["vram_end"], s["vram_size"]]
             missing += [n for n in want if n not in assigned]
+        # one symbol per linker-offset entry: as many assignments as included entries carry that name
+        offs = collections.Counter(n for s in info["segments"] if s["emitted"] for n in (s.get("offsets") or []))
+        every = collections.Counter(re.findall(r"^\s*(?:PROVIDE\(|HIDDEN\(|PROVIDE_HIDDEN\()?([^\s=()]+) = ", text, re.M))
+        twice = [n for n, k in offs.items() if every.get(n, 0) > k]
+        if twice:
+            res.update(status="violation", why="linker-offset symbols assigned more often than there are entries (%s mode): %s" % (c["mode"], ", ".join(twice[:4])))
+            return res
+        if not info["single"]:
+            # start, end and size of every vram class an emitted segment uses; and no size without its start and end
+            used = {s.get("vram_class") for s in info["segments"] if s["emitted"] and s.get("vram_class")}
+            for cl in info.get("classes", []):
+                trio = [cl["start"], cl["end"], cl["size"]]
+                if cl["name"] in used:
+                    missing += [n for n in trio if n not in assigned]
+                elif cl["size"] in assigned:
+                    missing += [n for n in trio[:2] if n not in assigned]
         if missing:
             res.update(status="violation", why="symbols the property lists are assigned by no script (%s mode): %s" % (c["mode"], ", ".join(missing[:6])))
         return res
@@ -1656,7 +1723,7 @@ class C11(Property):
                 sgm[k] = gen.gen_pairs(r, 2 + r.below(2))
             if r.chance(0.1):
                 sgm["name"] = sgm["name"] + "." + r.pick(["title", "select", "x"])
-        c["link"] = False
+        c.pop("link", None)     # make_case decides which cases are linked
 
     def make_case(self, seed, idx):
         c = Property.make_case(self, seed, idx)
@@ -1703,18 +1770,29 @@ def two_step_check(w, c, implN, implP):
     if not info or "segments" not in info:
         return {"linked": "no-docinfo"}
     seed = c.get("seed", 1) ^ 0xC11
-    L1 = image.build_and_link("c11a", [("main", implN["script"])], info, Rng(seed), extra_sections=False)
+    # an input file named by two segments is placed once by the one-step link (first match) but is linked into both
+    # partial objects, and a linker offset of the same name in two segments is one symbol assigned twice in the ordinary
+    # script but two definitions in two partial objects: the two links are not comparable (DESIGN.md, interpretation notes)
+    owner = {}
+    for n, t in implP.get("partials", []):
+        for st in image.parse_script(t):
+            key = ("file", st["path"]) if st["kind"] == "input" else ("sym", st["name"]) if st["kind"] == "sym" else None
+            if key is not None and key[1] != "." and owner.setdefault(key, n) != n:
+                return {"linked": "skip:a file or symbol is named by two segments"}
+    L1 = image.build_and_link("c11a", [(image.MAIN, implN["script"])], info, Rng(seed), extra_sections=False, no_check_sections=True)
     if isinstance(L1, str):
         return {"linked": "skip:" + L1}
     try:
         if not L1.ok:
             return {"linked": "link-failed(one-step)"}
-        L2 = image.build_and_link("c11b", [("main", implP["script"])] + [(n, t) for n, t in implP.get("partials", [])], info, Rng(seed),
-                                  extra_sections=False)
+        L2 = image.build_and_link("c11b", [(image.MAIN, implP["script"])] + [(n, t) for n, t in implP.get("partials", [])], info, Rng(seed),
+                                  extra_sections=False, no_check_sections=True)
         if isinstance(L2, str):
             return {"linked": "skip:" + L2}
         try:
             if not L2.ok:
+                if "not enough room for program headers" in L2.log:
+                    return {"linked": "link-failed(two-step, program headers)"}
                 return {"linked": "ok", "status": "violation",
                         "why": "two-step link fails where the one-step link succeeds: " + L2.log[-300:]}
             bad = []
@@ -1727,12 +1805,14 @@ def two_step_check(w, c, implN, implP):
                         zero.add(ldlab.marker(pth if mem is None else pth + ":" + mem, sec))
             for L in (L1, L2):
                 L.symbols = {k: a for k, a in L.symbols.items() if k not in zero}
+            def members(L, s):
+                """the markers the image holds in the two output sections of segment s, in address order (the section a
+                symbol belongs to is read from the symbol table: overlays share addresses)"""
+                outs = ("." + s["name"], "." + s["name"] + ".noload")
+                ms = [(outs.index(L.symsec[k]), a, k) for k, a in L.symbols.items() if k.startswith("mk__") and L.symsec.get(k) in outs]
+                return [k for _, a, k in sorted(ms)]
             for s in image.emitted(info):
-                def members(L):
-                    v, ve = image.sym(L, s["vram"]), image.sym(L, s["vram_end"])
-                    ms = [(a, k) for k, a in L.symbols.items() if k.startswith("mk__") and v is not None and ve is not None and v <= a < ve]
-                    return [k for a, k in sorted(ms)]
-                m1, m2 = members(L1), members(L2)
+                m1, m2 = members(L1, s), members(L2, s)
                 if sorted(m1) != sorted(m2):
                     bad.append("segment %s holds different input sections after two-step linking: only one-step %s, only two-step %s" % (
                         s["name"], sorted(set(m1) - set(m2))[:3], sorted(set(m2) - set(m1))[:3]))
@@ -1740,18 +1820,42 @@ def two_step_check(w, c, implN, implP):
             if missing:
                 bad.append("input sections lost by the two-step link: %s" % missing[:3])
             if not bad:
-                # relative order inside every segment (zero-sized sections may tie)
+                # relative order inside every segment (zero-sized sections are left out: they may tie)
                 for s in image.emitted(info):
-                    v, ve = image.sym(L1, s["vram"]), image.sym(L1, s["vram_end"])
-                    ks = [k for k, a in L1.symbols.items() if k.startswith("mk__") and v is not None and v <= a < ve]
-                    o1 = sorted(ks, key=lambda k: L1.symbols[k])
+                    o1 = members(L1, s)
+                    pos2 = {k: i for i, k in enumerate(members(L2, s))}
                     for a, b in zip(o1, o1[1:]):
-                        if L1.symbols[a] < L1.symbols[b] and L2.symbols.get(a, 0) > L2.symbols.get(b, 0):
+                        if pos2[a] > pos2[b]:
                             bad.append("segment %s: %s precedes %s after one-step linking but follows it after two-step linking" % (s["name"], a, b))
                             break
             out = {"linked": "ok"}
+            # the Lean two-step link (Slinkyv.Ld2) on the same scripts and objects: fidelity, and the known finding
+            model = image.twostep_model(L2, w.d, implN["script"], implP["script"], implP.get("partials", []))
+            model_agrees = None
+            if model is not None:
+                model_agrees = True
+                for obj in sorted({o for _, o in model["two"]}):
+                    seq = [mk for mk, o in model["two"] if o == obj and mk not in zero]
+                    for a, b in zip(seq, seq[1:]):
+                        if L2.symsec.get(a) == L2.symsec.get(b) and not L2.symbols[a] < L2.symbols[b]:
+                            model_agrees = False
+                out["twostep_model"] = "agrees" if model_agrees else "differs"
             if bad:
-                out.update(status="violation", why="two-step link (ld -r per segment, then main): " + "; ".join(bad[:2]))
+                order_only = all("precedes" in b for b in bad)
+                grabs = image.grabbing_statements(implP["script"], set(L2.partial_objs.values()))
+                explained = False
+                if order_only and grabs and model is not None and model_agrees:
+                    # with the partial objects' sections taken by exact name the two-step order is the one-step order
+                    explained = True
+                    for obj in sorted({o for _, o in model["two_exact"]}):
+                        seq = [mk for mk, o in model["two_exact"] if o == obj]
+                        ref = [mk for mk in model["one"] if mk in set(seq)]
+                        if seq != ref:
+                            explained = False
+                if explained:
+                    out.update(status="kf:KF-C11-prefix-group", why="known finding KF-C11-prefix-group: %s(%s*) also takes section %s of the partial object" % grabs[0])
+                else:
+                    out.update(status="violation", why="two-step link (ld -r per segment, then main): " + "; ".join(bad[:2]))
             return out
         finally:
             L2.lab.close()
